@@ -39,7 +39,7 @@ def classify(case, kind):
             cls.add("sdl-unreferenced-builtin-scalars")
         if not (only_json <= META and only_sdl <= BUILTIN):
             return set()
-    elif k == "verdict":
+    elif k in ("verdict", "cli"):
         if case.get("label") == "shadow-root":
             cls.add("json-root-types-implicit")
         if case.get("label") == "unused-builtin-variable":
@@ -48,8 +48,20 @@ def classify(case, kind):
 
 
 def run(ctx):
+    # the real CLI binary, rebuilt from the working tree (incremental), for the twin-project cases; without it the
+    # run still covers both routes in-process
+    extra = []
+    try:
+        ok, cli = vlib.cli_build(ctx)
+        if ok:
+            extra = ["--cli", cli]
+        else:
+            ctx.notes.append("nitrogql-cli did not build: twin-project cases skipped")
+    except Exception as e:  # noqa
+        ctx.notes.append("nitrogql-cli build failed (%r): twin-project cases skipped" % (e,))
     return vlib.standard_check(
         ctx,
+        harness_extra=extra,
         targets=["C15/Properties.vo", "C15/Corr.vo"],
         pinned="C15/Pinned.v",
         binname="c15",
